@@ -19,6 +19,10 @@ type extResult struct {
 
 func runExtPhases(r *vk.Run, th bool) extResult {
 	res := extResult{info: map[string]any{}}
+	if os.Getenv("C17_EMBED") != "" { // development: phase H only
+		runEmbed(r, th, &res)
+		return res
+	}
 	t0 := time.Now()
 	e, n, info := xfmtPhase(r, th, os.Getenv("C17_XGROUP"))
 	res.evals += e
@@ -41,7 +45,24 @@ func runExtPhases(r *vk.Run, th bool) extResult {
 		res.info["paths_headers_extensible_notary_and_compression_threshold"] = info
 		fmt.Printf("phase G (paths of headers / extensibles / notary requests, compression threshold): %v, %d threshold cases, %d evaluations in %.1fs\n", info["path_cases_by_kind"], info["threshold_cases"], e, time.Since(t0).Seconds())
 	}
+	if os.Getenv("C17_XGROUP") == "" && os.Getenv("C17_JSONMUT") == "" && os.Getenv("C17_PATHS2") == "" {
+		runEmbed(r, th, &res)
+	}
 	return res
+}
+
+func runEmbed(r *vk.Run, th bool, res *extResult) {
+	t0 := time.Now()
+	e, n, info := embedPhase(r, th, os.Getenv("C17_EMBED"))
+	res.evals += e
+	res.nontrivial += n
+	res.info["embedded_and_compact_forms"] = info
+	var parts []string
+	for _, k := range sortedKeys(info) {
+		m := info[k].(map[string]any)
+		parts = append(parts, fmt.Sprintf("%s=%d/%d", k, m["cases"], m["distinct_outcomes"]))
+	}
+	fmt.Printf("phase H (embedded / compact forms restore value and identity): cases/distinct outcomes %s, %d restored values compared in %.1fs\n", strings.Join(parts, " "), e, time.Since(t0).Seconds())
 }
 
 // violate reports a violation. Development aid: with C17_DEV_KNOWN=1 the keys
